@@ -203,7 +203,7 @@ ResumeGen(m, pid, p, f, j) ==
 StepEval(m) ==
   LET c == m.cors[m.cur]  n == c.ctl IN
   CASE n.t \in {"int", "float", "bool", "str"} -> Go(SetC(m, RetC(c, Lit(n))))
-    [] n.t = "bigint" -> UnspecR       \* literal outside the model's integer range
+    [] n.t = "bigint" -> Go(SetC(m, RetC(c, BigV(n.txt))))       \* literal beyond 2^30: carried as its decimal text
     [] n.t = "name" -> LET r == Lookup(m, c, n) IN IF IsErr(r) THEN UnspecR ELSE Go(SetC(m, RetC(c, r.val)))
     [] n.t = "fn" -> Go(SetC(m, RetC(c, FnVal(n, c.fr))))
     [] n.t = "list" -> IF Len(n.e) = 0 THEN Go(SetC(m, RetC(c, ArrV(<<>>))))
@@ -371,6 +371,7 @@ SameVal(a, b) ==      \* a: spec value, b: recorded value
   \/ /\ a.k = b.k
      /\ CASE a.k \in {"nil", "fn"} -> TRUE
           [] a.k \in {"int", "bool", "str"} -> a.v = b.v
+          [] a.k = "bigint" -> a.txt = b.txt
           [] a.k = "float" -> a.c = b.c /\ (a.c = "nan" \/ (a.neg = b.neg /\ (a.c = "inf" \/ (a.n = b.n /\ a.e = b.e))))
           [] a.k = "arr" -> Len(a.v) = Len(b.v) /\ \A i \in 1..Len(a.v) : SameVal(a.v[i], b.v[i])
 Clean(res) == res.sp = 0 /\ res.frames = 0 /\ res.closures = 0 /\ res.live = 0 /\ res.ipgap = 0
